@@ -19,8 +19,10 @@ Inductive rtype := TUnset | TModel | TCollection.          (* Handler.Type *)
 Inductive kind := KChange | KAdd | KRemove | KCreate | KDelete | KCustom.
 Inductive value := VNil | VJson (j : bytes) | VBad (n : N).
 Definition vmap := list (bytes * value).
-(* error returned by an apply handler: a *res.Error or any other error *)
-Inductive err := ERes (code msg : bytes) | EPlain (msg : bytes).
+(* error returned by an apply handler: a *res.Error, any other error (msg = Error()), or a
+   typed-nil *res.Error returned as a (non-nil) error interface.  Whatever the value, the apply
+   handler FAILED: the event methods only test err != nil *)
+Inductive err := ERes (code msg : bytes) | EPlain (msg : bytes) | ENilRes.
 (* behaviour of the apply handler at one call *)
 Inductive apply (R : Type) := Absent | Ok (r : R) | Fails (e : err).
 Arguments Absent {R}.
@@ -313,17 +315,23 @@ Definition panic_text (p : panic) : bytes :=
   | PBadName => s2b "res: invalid event name"
   | PApply (ERes _ m) => m
   | PApply (EPlain m) => m
+  | PApply ENilRes => []
   | PReplied => s2b "res: response already sent on request"
   | PNegTimeout => s2b "res: negative timeout duration"
   end.
 (* the recovered panic value as the With callback's own recover sees it:
    (code of a *res.Error or [], text) *)
 Definition panic_obs (p : panic) : bytes * bytes :=
-  match p with PApply (ERes c m) => (c, m) | _ => ([], panic_text p) end.
+  match p with
+  | PApply (ERes c m) => (c, m)
+  | PApply ENilRes => (s2b "<nil *Error>", [])
+  | _ => ([], panic_text p)
+  end.
 (* *Error verbatim, everything else through ToError / InternalError *)
 Definition err_code_msg (p : panic) : bytes * bytes :=
   match p with
   | PApply (ERes c m) => (c, m)
+  | PApply ENilRes => (s2b "system.internalError", s2b "Internal error")   (* Request.error: nil *Error *)
   | _ => (s2b "system.internalError", s2b "Internal error: " ++ panic_text p)
   end.
 (* JSON string escaping of the two characters that occur in the texts above *)
